@@ -1,0 +1,206 @@
+//go:build verif
+
+package core
+
+import (
+	"encoding/hex"
+	"fmt"
+	"sort"
+	"strings"
+
+	"github.com/truora/minidyn/types"
+)
+
+// VerifIndexNames returns the names of the table's secondary indexes, sorted.
+func (t *Table) VerifIndexNames() []string {
+	names := make([]string, 0, len(t.Indexes))
+	for n := range t.Indexes {
+		names = append(names, n)
+	}
+
+	sort.Strings(names)
+
+	return names
+}
+
+// VerifIndexState returns copies of an index's internal bookkeeping.
+func (t *Table) VerifIndexState(name string) (refs map[string]string, sortedKeys []string, typ string, hash string, rng string, ok bool) {
+	i, ok := t.Indexes[name]
+	if !ok {
+		return nil, nil, "", "", "", false
+	}
+
+	refs = make(map[string]string, len(i.refs))
+	for k, v := range i.refs {
+		refs[k] = v
+	}
+
+	sortedKeys = append([]string{}, i.sortedKeys...)
+
+	return refs, sortedKeys, string(i.typ), i.keySchema.HashKey, i.keySchema.RangeKey, true
+}
+
+func verifItem(sb *strings.Builder, it *types.Item) {
+	if it == nil {
+		sb.WriteString("<nil>")
+		return
+	}
+
+	n := 0
+
+	emit := func(tag, body string) {
+		if n > 0 {
+			sb.WriteString("+")
+		}
+
+		n++
+
+		sb.WriteString(tag)
+		sb.WriteString(":")
+		sb.WriteString(body)
+	}
+
+	if it.B != nil {
+		emit("B", hex.EncodeToString(it.B))
+	}
+
+	if it.BOOL != nil {
+		emit("BOOL", fmt.Sprintf("%t", *it.BOOL))
+	}
+
+	if it.BS != nil {
+		m := make([]string, len(it.BS))
+		for i, b := range it.BS {
+			m[i] = hex.EncodeToString(b)
+		}
+
+		sort.Strings(m)
+		emit("BS", "{"+strings.Join(m, ",")+"}")
+	}
+
+	if it.L != nil {
+		var lb strings.Builder
+
+		lb.WriteString("[")
+
+		for i, e := range it.L {
+			if i > 0 {
+				lb.WriteString(",")
+			}
+
+			verifItem(&lb, e)
+		}
+
+		lb.WriteString("]")
+		emit("L", lb.String())
+	}
+
+	if it.M != nil {
+		var mb strings.Builder
+
+		verifItemMap(&mb, it.M)
+		emit("M", mb.String())
+	}
+
+	if it.N != nil {
+		emit("N", *it.N)
+	}
+
+	if it.NS != nil {
+		m := make([]string, len(it.NS))
+		for i, s := range it.NS {
+			m[i] = types.StringValue(s)
+		}
+
+		sort.Strings(m)
+		emit("NS", "{"+strings.Join(m, ",")+"}")
+	}
+
+	if it.NULL != nil {
+		emit("NULL", fmt.Sprintf("%t", *it.NULL))
+	}
+
+	if it.S != nil {
+		emit("S", fmt.Sprintf("%q", *it.S))
+	}
+
+	if it.SS != nil {
+		m := make([]string, len(it.SS))
+		for i, s := range it.SS {
+			m[i] = fmt.Sprintf("%q", types.StringValue(s))
+		}
+
+		sort.Strings(m)
+		emit("SS", "{"+strings.Join(m, ",")+"}")
+	}
+
+	if n == 0 {
+		sb.WriteString("<empty>")
+	}
+}
+
+func verifItemMap(sb *strings.Builder, m map[string]*types.Item) {
+	keys := make([]string, 0, len(m))
+	for k := range m {
+		keys = append(keys, k)
+	}
+
+	sort.Strings(keys)
+	sb.WriteString("{")
+
+	for i, k := range keys {
+		if i > 0 {
+			sb.WriteString(",")
+		}
+
+		sb.WriteString(fmt.Sprintf("%q=", k))
+		verifItem(sb, m[k])
+	}
+
+	sb.WriteString("}")
+}
+
+// VerifSnapshot returns a canonical dump of the complete table state: key
+// schema, attribute definitions, data, sorted keys and every index.
+func (t *Table) VerifSnapshot() string {
+	var sb strings.Builder
+
+	sb.WriteString(fmt.Sprintf("table %q hash=%q range=%q native=%t\n", t.Name, t.KeySchema.HashKey, t.KeySchema.RangeKey, t.UseNativeInterpreter))
+
+	attrs := make([]string, 0, len(t.AttributesDef))
+	for k, v := range t.AttributesDef {
+		attrs = append(attrs, fmt.Sprintf("%q:%s", k, v))
+	}
+
+	sort.Strings(attrs)
+	sb.WriteString("attrs " + strings.Join(attrs, ",") + "\n")
+	sb.WriteString(fmt.Sprintf("sortedKeys %q\n", t.SortedKeys))
+
+	keys := make([]string, 0, len(t.Data))
+	for k := range t.Data {
+		keys = append(keys, k)
+	}
+
+	sort.Strings(keys)
+
+	for _, k := range keys {
+		sb.WriteString(fmt.Sprintf("data %q ", k))
+		verifItemMap(&sb, t.Data[k])
+		sb.WriteString("\n")
+	}
+
+	for _, name := range t.VerifIndexNames() {
+		i := t.Indexes[name]
+		sb.WriteString(fmt.Sprintf("index %q typ=%s hash=%q range=%q sortedKeys=%q refs=", name, i.typ, i.keySchema.HashKey, i.keySchema.RangeKey, i.sortedKeys))
+
+		rk := make([]string, 0, len(i.refs))
+		for k, v := range i.refs {
+			rk = append(rk, fmt.Sprintf("%q->%q", k, v))
+		}
+
+		sort.Strings(rk)
+		sb.WriteString(strings.Join(rk, ",") + "\n")
+	}
+
+	return sb.String()
+}
